@@ -3,6 +3,7 @@ package types
 import (
 	"bytes"
 
+	"github.com/btcsuite/btcd/btcec/v2/schnorr"
 	"github.com/btcsuite/btcd/chaincfg"
 	"github.com/btcsuite/btcd/txscript"
 	relayer "github.com/goatnetwork/goat/x/relayer/types"
@@ -69,8 +70,24 @@ func VH_C17_v1(h *vrt.H) {
 	addr, data, err := DepositAddressV1(key, magic, evm, vhNet())
 	if schn {
 		h.Assert(err != nil, "v1-not-handed-out-for-schnorr-keys")
-		out0 := h.Bytes("out0", 22)
-		out1 := h.Bytes("out1", 26)
+		// every plausible pair of outputs is refused: the key's own key-path taproot script,
+		// or arbitrary 22/34-byte scripts, followed by the well-formed data output or arbitrary bytes
+		pk, perr := schnorr.ParsePubKey(key.GetSchnorr())
+		if perr != nil {
+			return
+		}
+		keyPath := append([]byte{0x51, 0x20}, schnorr.SerializePubKey(txscript.ComputeTaprootKeyNoScript(pk))...)
+		var out0 []byte
+		switch h.Choose("schnorrOut0", 0, 2) {
+		case 0:
+			out0 = keyPath
+		case 1:
+			out0 = h.Bytes("out0", 22)
+		default:
+			out0 = h.Bytes("out0", 34)
+		}
+		dataScript := append(append([]byte{0x6a, 0x18}, magic...), evm...)
+		out1 := h.PickBytes(h.Bool("genuineDataOutput"), dataScript, h.Bytes("out1", 26))
 		h.Assert(VerifyDespositScriptV1(key, magic, evm, out0, out1) != nil, "v1-refused-for-schnorr-keys")
 		h.Reach("schnorr")
 		return
